@@ -341,7 +341,8 @@ func runC09(c C09Case) *Result {
 			}
 			fr := stack[len(stack)-1]
 			stack = stack[:len(stack)-1]
-			if err := in.M.Undo(uint64(fr.b.Add), cloneProof(fr.proof), cloneHashes(fr.delH), cloneHashes(fr.roots)); err != nil {
+			in.ar.next()
+			if err := in.M.Undo(uint64(fr.b.Add), in.ar.proof(fr.proof), in.ar.hashes(fr.delH), in.ar.hashes(fr.roots)); err != nil {
 				return res.failf("step %d: Undo of block {del %v, add %d} failed: %v", i, fr.b.Del, fr.b.Add, err)
 			}
 			f = fr.before
